@@ -1,6 +1,8 @@
 """C09 — every textual format denotes the unit exactly; plain-text formats round-trip."""
 from __future__ import annotations
 
+import random
+
 import re
 from decimal import Decimal
 from fractions import Fraction
@@ -228,6 +230,41 @@ class Check(Property):
         return None
 
     # ------------------------------------------------------------------ oracle
+    SUP = str.maketrans("⁰¹²³⁴⁵⁶⁷⁸⁹⁻⁺", "0123456789-+")
+
+    def magnitude_oracle(self, u, un, spec, key, unit_text, tag):
+        import re
+        import numpy as np
+        v = []
+        rng = random.Random(hash((spec, unit_text)) & 0xFFFFFFFF)
+        mspec = rng.choice([".2e", ".3e", ".3g", ".1f", "e", ".4g"])
+        e1, e2 = rng.sample([10, 20, -5, 3, -12, 0, 7], 2)
+        vals = [rng.choice([1.0, 2.0, 1.5, -2.5, 7.25]) * 10.0 ** e1, rng.choice([2.0, 3.0, -1.5, 6.5]) * 10.0 ** e2]
+        for m in (vals[0], np.array(vals), np.array([vals[1], vals[0], 1.0])):
+            q = u.Quantity(m, un)
+            try:
+                fq = format(q, mspec + spec)
+            except Exception as exc:  # noqa: BLE001
+                v.append(f"{tag}: formatting {q!r} with {mspec + spec!r} raised {type(exc).__name__}: {exc}")
+                continue
+            tail = unit_text[2:] if unit_text.startswith("1 / ") else unit_text
+            if key == "H" and "<pre>" in fq:
+                txt = fq[fq.index("<pre>") + 5: fq.index("</pre>")]        # arrays are laid out as a table
+            elif not fq.endswith(tail):
+                continue
+            else:
+                txt = fq[: len(fq) - len(tail)]
+            txt = re.sub(r"×10<sup>([-+]?\d+)</sup>", r"e\1", txt)
+            txt = re.sub(r"\\times 10\^\{([-+]?\d+)\}", r"e\1", txt)
+            txt = re.sub(r"×10([⁰¹²³⁴⁵⁶⁷⁸⁹⁻⁺]+)", lambda mm: "e" + mm.group(1).translate(self.SUP), txt)
+            txt = re.sub(r"<[^>]*>", " ", txt)
+            got = [float(x) for x in re.findall(r"[-+]?(?:\d+\.?\d*|\.\d+)(?:e[-+]?\d+)?", txt)]
+            want = [float(format(float(x), mspec)) for x in np.atleast_1d(m)]
+            if got != want:
+                v.append(f"{tag}: magnitude {m!r} with the numeric format {mspec!r} renders as {fq!r}, which reads as {got}; "
+                         f"Python's format gives {want}")
+        return v
+
     def oracle(self, c):
         if c["kind"] == "split":
             return []
@@ -316,6 +353,9 @@ class Check(Property):
                             v.append(f"{tag}: {fq!r} parses back to {q2!r}, not {q!r}")
                     except Exception as exc:  # noqa: BLE001
                         v.append(f"{tag}: {fq!r} does not parse back: {type(exc).__name__}: {exc}")
+        # the magnitude is rendered in the requested numeric format: scalars and arrays, every notation read back
+        if c["t"] == "float" and key in ("D", "C", "P", "H", "L") and before:
+            v += self.magnitude_oracle(u, un, spec, key, s, tag)
         # str(q) round trip
         mult = all(u._units[k].is_multiplicative for k in before)   # "3 degC" is a refused product by design (C06)
         if key == "D" and not short and spec == "" and before and mult and all(k.isidentifier() and k.isascii() for k in before) and exact:
